@@ -37,6 +37,10 @@ func main() {
 		mapOrder(os.Args[2:])
 	case "const":
 		constScale(os.Args[2:])
+	case "maporder-all":
+		mapOrderAll(os.Args[2:])
+	case "syncshim":
+		syncShim(os.Args[2:])
 	default:
 		die("unknown mode %s", os.Args[1])
 	}
@@ -47,6 +51,32 @@ func writeOverlay(path string, repl map[string]string) {
 	if err := os.WriteFile(path, b, 0o644); err != nil {
 		die("%v", err)
 	}
+}
+
+// mapOrderAll: ovgen maporder-all <pkgdir> <outdir> <overlay.json>: rewrite the
+// map ranges of every non-test file of the package (files without map ranges
+// are left alone); merges into an existing overlay file.
+func mapOrderAll(args []string) {
+	if len(args) != 3 {
+		die("usage: maporder-all <pkgdir> <outdir> <overlay.json>")
+	}
+	allFiles = true
+	mapOrder(append(args, "*"))
+}
+
+var allFiles bool
+
+func readOverlay(path string) map[string]string {
+	repl := map[string]string{}
+	b, err := os.ReadFile(path)
+	if err != nil {
+		return repl
+	}
+	var o struct{ Replace map[string]string }
+	if json.Unmarshal(b, &o) == nil && o.Replace != nil {
+		repl = o.Replace
+	}
+	return repl
 }
 
 func mapOrder(args []string) {
@@ -69,11 +99,18 @@ func mapOrder(args []string) {
 		want[f] = true
 	}
 	repl := map[string]string{}
+	if allFiles {
+		repl = readOverlay(ovpath)
+		delete(want, "*")
+	}
 	os.MkdirAll(outdir, 0o755)
 	for _, file := range pkg.Syntax {
 		name := pkg.Fset.Position(file.Pos()).Filename
 		base := filepath.Base(name)
-		if !want[base] {
+		if !want[base] && !allFiles {
+			continue
+		}
+		if strings.HasSuffix(base, "_test.go") {
 			continue
 		}
 		delete(want, base)
@@ -123,6 +160,9 @@ func mapOrder(args []string) {
 			return true
 		})
 		if n == 0 {
+			if allFiles {
+				continue
+			}
 			die("%s: no map range found (transformation does not apply to this tree)", base)
 		}
 		// add import
@@ -210,5 +250,66 @@ func constScale(args []string) {
 		}
 		repl[file] = out
 	}
+	writeOverlay(ovpath, repl)
+}
+
+// syncShim: ovgen syncshim <outdir> <overlay.json> <importpath> <dir>...:
+// in every non-test .go file of the directories that imports "sync", rewrite
+// that import to `sync "<importpath>"`. Chains onto an existing overlay (the
+// already replaced content is transformed).
+func syncShim(args []string) {
+	if len(args) < 4 {
+		die("usage: syncshim <outdir> <overlay.json> <importpath> <dir>...")
+	}
+	outdir, ovpath, imp, dirs := args[0], args[1], args[2], args[3:]
+	os.MkdirAll(outdir, 0o755)
+	repl := readOverlay(ovpath)
+	total := 0
+	for _, dir := range dirs {
+		ents, err := os.ReadDir(dir)
+		if err != nil {
+			die("%v", err)
+		}
+		for _, e := range ents {
+			n := e.Name()
+			if e.IsDir() || !strings.HasSuffix(n, ".go") || strings.HasSuffix(n, "_test.go") {
+				continue
+			}
+			path := filepath.Join(dir, n)
+			src := path
+			if r, ok := repl[path]; ok {
+				src = r
+			}
+			b, err := os.ReadFile(src)
+			if err != nil {
+				die("%v", err)
+			}
+			lines := strings.Split(string(b), "\n")
+			hit := 0
+			for i, l := range lines {
+				t := strings.TrimSpace(l)
+				if t == `"sync"` {
+					lines[i] = "\tsync \"" + imp + "\""
+					hit++
+				} else if t == `import "sync"` {
+					lines[i] = "import sync \"" + imp + "\""
+					hit++
+				}
+			}
+			if hit == 0 {
+				continue
+			}
+			out := filepath.Join(outdir, strings.ReplaceAll(strings.TrimPrefix(path, "/"), "/", "_"))
+			if err := os.WriteFile(out, []byte(strings.Join(lines, "\n")), 0o644); err != nil {
+				die("%v", err)
+			}
+			repl[path] = out
+			total += hit
+		}
+	}
+	if total == 0 {
+		die("syncshim: no \"sync\" import found in %v", dirs)
+	}
+	fmt.Fprintf(os.Stderr, "ovgen: sync import rewritten in %d file(s)\n", total)
 	writeOverlay(ovpath, repl)
 }
